@@ -6,6 +6,8 @@
 //	<pattern>: the dependency string of the only task of the spokfile
 //	optional, after the pattern:  R <hex>  the name of the project directory (default "r"; names with glob
 //	meta-characters must not matter: the pattern is relative to the directory, never part of it);
+//	Q <pattern>  a SECOND task of the same spokfile depends on this pattern (which may overlap the first): the expansion of
+//	one pattern is no business of any other pattern (OBS… are about the first pattern, SETQ is the second one's set);
 //	L <path,…>  entries of the tree that are realised as symbolic links to a copy kept OUTSIDE the project
 //	(a linked directory is traversed like any directory, a linked file is a file: the model sees only paths)
 //
@@ -104,8 +106,14 @@ func tag(root string, abs []string) []string {
 	return out
 }
 
+var secondPattern string // set per case (the worker handles one case at a time)
+
 func newSpokFile(root, pattern string) (*file.SpokFile, string) {
 	src := "task t(\"" + pattern + "\") {\n    run it\n}\n"
+	if secondPattern != "" {
+		// the other task comes FIRST in the file and sorts first by name; map iteration decides who is expanded first
+		src = "task a(\"" + secondPattern + "\") {\n    run it\n}\n\n" + src + "\ntask z(\"" + secondPattern + "\", \"" + pattern + "\") {\n    run it\n}\n"
+	}
 	tree, err := parser.New(src).Parse()
 	if err != nil {
 		return nil, "PARSE-ERR"
@@ -124,6 +132,7 @@ func globWork(c string) string {
 	}
 	pattern := f[3]
 	rootName := "r"
+	pattern2 := ""
 	var links []string
 	for i := 4; i+1 < len(f); i += 2 {
 		switch f[i] {
@@ -135,6 +144,8 @@ func globWork(c string) string {
 			rootName = n
 		case "L":
 			links = strings.Split(f[i+1], ",")
+		case "Q":
+			pattern2 = f[i+1]
 		default:
 			return "BAD-CASE"
 		}
@@ -189,6 +200,8 @@ func globWork(c string) string {
 		}
 	}
 
+	secondPattern = pattern2
+	defer func() { secondPattern = "" }()
 	sf1, bad := newSpokFile(root, pattern)
 	if bad != "" {
 		return "OBS " + bad
@@ -228,7 +241,23 @@ func globWork(c string) string {
 			ded = append(ded, s)
 		}
 	}
-	return fmt.Sprintf("OBS %s ; OBS2 %s ; OBSB %s ; SEQ %s ; SET %s ; LEG %s", showList(obs), showList(obs2), showList(obsB), seq, showList(ded), leg)
+	setq := "na"
+	if pattern2 != "" {
+		if _, ok := sf1.Globs[pattern2]; ok {
+			q := tag(root, sf1.Globs[pattern2])
+			sort.Strings(q)
+			dq := q[:0]
+			for i, x := range q {
+				if i == 0 || x != q[i-1] {
+					dq = append(dq, x)
+				}
+			}
+			setq = showList(dq)
+		} else {
+			setq = "notglob"
+		}
+	}
+	return fmt.Sprintf("OBS %s ; OBS2 %s ; OBSB %s ; SEQ %s ; SET %s ; LEG %s ; SETQ %s", showList(obs), showList(obs2), showList(obsB), seq, showList(ded), leg, setq)
 }
 
 // legacyWalk: doublestar.GlobWalk with the pinned callback (SkipDir for a hidden path)
@@ -371,6 +400,9 @@ var rootNames = []string{"proj[1]", "rel{ease}", "a*b", "q?x", "back\\slash", "s
 func randExtras(rng *rand.Rand, tr string) string {
 	out := ""
 	if rng.Intn(4) == 0 {
+		out += " Q " + randPattern(rng)
+	}
+	if rng.Intn(4) == 0 {
 		out += " R " + sup.Hx(rootNames[rng.Intn(len(rootNames))])
 	}
 	if tr != "-" && rng.Intn(3) == 0 {
@@ -444,6 +476,12 @@ func globGen(w *bufio.Writer, args map[string]string) {
 	for _, rn := range rootNames {
 		for _, p := range patterns {
 			fmt.Fprintf(w, "T f:main.x,f:sub/a.x,f:sub/deep/b.x,f:.h.x,d:sub/empty P %s R %s\n", p, sup.Hx(rn))
+		}
+	}
+	// two overlapping patterns in one spokfile, every ordered pair of the fixed patterns
+	for _, p := range patterns {
+		for _, q := range patterns {
+			fmt.Fprintf(w, "T f:main.x,f:sub/a.x,f:sub/deep/b.x,f:.h.x,d:sub/empty,f:zz.y P %s Q %s\n", p, q)
 		}
 	}
 	for _, l := range []string{"sub", "sub/deep", "main.x", "sub/a.x", "sub/empty", "sub,main.x", ".hid"} {
